@@ -94,7 +94,10 @@ class Result:
                 lines.append(f"KNOWN-FINDING: property={self.pid} key={f.key} {f.what}")
             else:
                 unlisted.append(f)
+        pointers = [n for n in self.notes if "pointer" in n]
         for f in unlisted:
+            if pointers:
+                f.detail += "\n\nStructural pointers (file:line, rule, path) reported by this run:\n" + "\n".join(pointers[:12])
             path = write_replay(self.pid, f)
             lines.append(f"VIOLATION property={self.pid} replay={path}")
             lines.append(f"  rule={f.rule} construct={f.construct} input-class={f.cls}: {f.what}")
